@@ -787,7 +787,7 @@ func TestVerifC20(t *testing.T) {
 	out := verifkit.Open()
 	defer out.Close()
 	r := verifkit.NewRand(verifkit.Seed())
-	n := verifkit.N(40, 400)
+	n := verifkit.N(150, 1500)
 	cd, li := configpb.IdentityFunction_SHA256_CERT_DATA, configpb.IdentityFunction_SHA256_LEAF_INDEX
 	fixed := []*c20Params{
 		{id: "f0", mode: "run", proofMode: "ok", cfgStart: -1, size0: 0, batch: 10, fetchers: 1, submit: 1, idFunc: cd, seed: 1},
